@@ -40,6 +40,24 @@ func (w *World) CheckFrameAndTags(o *Obs) []Violation {
 			}
 		}
 	}
+	if o.OK() {
+		// a tag's value belongs to its own field: the explicit prefix goes to the field that
+		// carries it, the field tagged logger:"" gets the component's default one
+		cr := w.Created(o)
+		for _, id := range sdl.SortedKeys(o.LoggerPref) {
+			t := w.Types[w.Insts[id].Type]
+			if !cr[id] || t.Logger2 == "" {
+				continue
+			}
+			lp := o.LoggerPref[id]
+			if lp[1] != t.Logger2 {
+				vs = append(vs, v("C11", "logger-prefix-differs", id, fmt.Sprintf("field Log2 of %s is tagged logger:%q but was given the logger for prefix %q", id, t.Logger2, lp[1])))
+			}
+			if lp[0] == t.Logger2 || lp[0] == "" || lp[0] == "<nil>" {
+				vs = append(vs, v("C11", "logger-prefix-leaks", id, fmt.Sprintf("field Log of %s is tagged logger:\"\" (the component's default prefix) but was given the logger for prefix %q; its neighbour Log2 (declared first: %v) carries the explicit prefix %q", id, lp[0], t.Log2First, t.Logger2)))
+			}
+		}
+	}
 	if o.TagRecords == nil || !o.OK() {
 		return vs
 	}
